@@ -13,6 +13,36 @@ func main() {
 	if len(os.Args) > 1 && os.Args[1] == "check" {
 		os.Exit(checkCmd(os.Args[2:]))
 	}
+	if len(os.Args) > 1 && os.Args[1] == "infer" {
+		rw, err := vc.LoadRepoWorld("/repo")
+		if err != nil {
+			fmt.Println(err)
+			os.Exit(2)
+		}
+		scratch, _ := os.MkdirTemp("/var/tmp", "goagvc-infer")
+		defer os.RemoveAll(scratch)
+		inf := vc.InferContracts(rw, scratch, 8, func(s string) { fmt.Println(s) })
+		if err := vc.WriteInferred("/repo", inf); err != nil {
+			fmt.Println(err)
+			os.Exit(2)
+		}
+		return
+	}
+	if len(os.Args) > 1 && os.Args[1] == "crashes" {
+		cr, _ := vc.NewCheckRun("C15", "quick", 1, "/repo", "/verif")
+		defer cr.Cleanup()
+		bin, err := vc.BuildGoag("/repo", cr.Scratch)
+		if err != nil {
+			fmt.Println(err)
+			os.Exit(2)
+		}
+		vc.PrintCrashes(bin, cr)
+		return
+	}
+	if len(os.Args) > 1 && os.Args[1] == "sweep" {
+		sweepCmd(os.Args[2:])
+		return
+	}
 	if len(os.Args) > 1 && os.Args[1] == "route" {
 		routeCmd(os.Args[2:])
 		return
